@@ -45,9 +45,17 @@ fn main() {
                 };
             }
             let mut rep = Report::new(&id, tier, props::level_of(&id));
-            if !props::run(&id, &mut rep) {
-                eprintln!("unknown property {}", id);
-                std::process::exit(2);
+            // a panic while the case list is being *built* (outside any case) is an engine failure, reported as such
+            match std::panic::catch_unwind(std::panic::AssertUnwindSafe(|| props::run(&id, &mut rep))) {
+                Ok(true) => {},
+                Ok(false) => {
+                    eprintln!("unknown property {}", id);
+                    std::process::exit(2);
+                },
+                Err(e) => {
+                    let msg = e.downcast_ref::<String>().cloned().or_else(|| e.downcast_ref::<&str>().map(|s| s.to_string())).unwrap_or_default();
+                    rep.machinery.push(format!("harness panicked while building or exploring the case list: {}", msg));
+                },
             }
             std::process::exit(rep.finish());
         },
